@@ -13,6 +13,9 @@ from dataclasses import dataclass, field
 from typing import Dict, List, Optional, Tuple
 
 
+_PARSE_CACHE: Dict[tuple, ast.Module] = {}  # ASTs are never mutated by the analyser
+
+
 class AnalysisError(Exception):
     """The analyser cannot establish its own preconditions (exit 2, never a VIOLATION)."""
 
@@ -106,12 +109,16 @@ class Repo:
                 else:
                     with open(path, "r", encoding="utf-8") as f:
                         src = f.read()
-                try:
-                    with warnings.catch_warnings():
-                        warnings.simplefilter("ignore")
-                        tree = ast.parse(src, filename=rel)
-                except SyntaxError as e:
-                    raise AnalysisError(f"cannot parse {rel}: {e}")
+                ck = (rel, hash(src))
+                tree = _PARSE_CACHE.get(ck)
+                if tree is None:
+                    try:
+                        with warnings.catch_warnings():
+                            warnings.simplefilter("ignore")
+                            tree = ast.parse(src, filename=rel)
+                    except SyntaxError as e:
+                        raise AnalysisError(f"cannot parse {rel}: {e}")
+                    _PARSE_CACHE[ck] = tree
                 mi = ModuleInfo(name, path, rel, src, tree, is_pkg)
                 self.modules[name] = mi
                 self.by_relpath[rel] = mi
